@@ -789,3 +789,26 @@ func TestC07Cells(t *testing.T) {
 		vlib.Exhaustive("C07 KEM x KDF x AEAD x mode cells", 252, fmt.Sprintf("%d pseudo-random case(s) per cell, all applicable negative relations; all shards together", per))
 	}
 }
+
+// TestC07Alt: a reduced grid for the KEMs whose arithmetic is circl's own (X25519, X448, and the Kyber / ML-KEM
+// polynomial code of the two hybrids; the NIST curves are crypto/ecdh) run under the other arithmetic back-ends
+// (binary c07alt: purego build, GODEBUG cpu.avx2 / cpu.bmi2 / cpu.adx off). The RFC values do not depend on the
+// back-end; the reference is the same.
+func TestC07Alt(t *testing.T) {
+	defer vlib.Done()
+	if vlib.Config == "default" {
+		t.Skip("the default configuration is covered by TestC07Grid")
+	}
+	selftest(t)
+	for _, id := range []uint16{rhpke.KEMX25519, rhpke.KEMX448, rhpke.KEMXyber, rhpke.KEMXWing, rhpke.KEMP256} {
+		id := id
+		t.Run(kemName(id), func(t *testing.T) {
+			n := vlib.N(60, 600) / kemCost[id]
+			vlib.Check(t, n, func(t *rapid.T) {
+				c := drawCase(t, id)
+				c.Src = "rapid/" + vlib.Config
+				evalCase(c, func(key, detail string) bool { return vlib.Report(t, key, detail) })
+			})
+		})
+	}
+}
